@@ -164,7 +164,8 @@ def retry_wait_session(bindir, tag, quit_key):
         rd.cleanup()
 
 
-KEYNAMES = ["F1", "F2", "F3", "F4", "F5", "Tab", "Enter", "Up", "Down", "Left", "Right", "+", "-", "l", "i", "h", "t", "n", "x", "Esc", "Space", "PageDown"]
+KEYNAMES = ["F1", "F2", "F3", "F4", "F5", "Tab", "Enter", "Up", "Down", "Left", "Right", "+", "-", "l", "i", "h", "t", "n", "x", "Esc", "Space", "PageDown",
+            "F6", "F7", "F8", "F9", "F10", "F11", "F12", "Home", "End", "Insert", "Delete", "PageUp", "BackTab", "Backspace", "Q", "L", "ShiftF1", "CtrlF3", "AltX", "0"]
 CODE2KEY = {"F(1)": "F1", "F(2)": "F2", "F(3)": "F3", "F(4)": "F4", "F(5)": "F5", "Tab": "Tab", "Up": "Up", "Down": "Down", "Left": "Left",
             "Right": "Right", "Enter": "Enter", "Char('+')": "+", "Char('-')": "-", "Char('l')": "l", "Char('t')": "t", "Char('x')": "x", "Char('q')": "q"}
 MKIND = {"Down(Left)": "down", "Drag(Left)": "drag", "Up(Left)": "up", "ScrollUp": "scrollup", "ScrollDown": "scrolldown"}
